@@ -249,6 +249,7 @@ class StateEngine(object):
         results metadata for each Map or Parallel state in a given execution.
         """
         self.branch_metadata = {}
+        self.winding_up = set()  # executions whose branch results are being wound up
 
         self.task_dispatcher = TaskDispatcher(self, config)
         # self.event_dispatcher set by EventDispatcher
@@ -973,6 +974,25 @@ class StateEngine(object):
         the branch_results.
         """
 
+        """
+        Cancelling a Task below runs its callback, which can lead back here
+        for the same execution before the loop has got to the other pending
+        Tasks. That inner call must not acknowledge the held events yet (the
+        cancellation of those other Tasks, which may end child executions, is
+        still to come): it leaves everything to the call that is in progress.
+        """
+        if execution_arn in self.winding_up:
+            return
+        self.winding_up.add(execution_arn)
+        try:
+            self.wind_up_pending_results(execution_arn)
+        finally:
+            self.winding_up.discard(execution_arn)
+
+    def wind_up_pending_results(self, execution_arn):
+        if execution_arn not in self.branch_metadata:
+            return
+
         # Get the dict containing all the branch results for this execution
         all_branch_results = self.branch_metadata[execution_arn].results
 
@@ -1027,9 +1047,30 @@ class StateEngine(object):
                         else:
                             results_pending = True
 
+        if execution_arn not in self.branch_metadata:
+            return
+
         wound_up_keys = [
             key for key, results in all_branch_results.items() if wound_up(results)
         ]
+
+        """
+        The cancellations above have filled in the results of the cancelled
+        branches, so look again at what is still outstanding: branches whose
+        event is still queued somewhere will report here when it is discarded.
+        """
+        results_pending = False
+        for key in wound_up_keys:
+            results = all_branch_results[key]
+            result = results["results"]
+            terminated = results.get("terminated")
+            if terminated:
+                start, end = (int(x) for x in terminated.split(":"))
+            else:
+                start, end = 0, len(result)
+            for i in range(start, min(end, len(result))):
+                if result[i] == None or result[i] == "__CAUGHT__":
+                    results_pending = True
         for key in wound_up_keys:
             event_ids = all_branch_results[key]["ids"]
             #print("Acknowledging event_ids:")
